@@ -2,6 +2,7 @@ import Model
 import Spec
 import Gen
 import Proofs.SM
+import Proofs.LocalAddr
 /-!
   C11 — a CER is accepted exactly when a common application exists.
   `cerParse` models `smparser.CER.Parse` (Unmarshal by dictionary code, sanityCheck, in-band
@@ -214,6 +215,27 @@ theorem C11_cea_identity (cfg : Settings) (ips : List Bytes) (osid : Option AVP)
     unfold ceaCommon
     simp only [List.mem_append, List.mem_map]
     exact Or.inl (Or.inl (Or.inr ⟨ip, hip, rfl⟩))
+
+/-- Host-IP-Address when none is configured (`getLocalAddresses`): for every local endpoint -
+    single or multi-homed, IPv4 or IPv6, any mixture of parseable and unparseable entries - what
+    is advertised are addresses of that endpoint; if the endpoint has any parseable address at all
+    the CEA carries at least one Host-IP-Address; loopback addresses only as a last resort. -/
+theorem C11_cea_local_address (cfg : Settings) (osid : Option AVP) (hosts : List HostEntry) :
+    (∀ as, getLocalAddresses true hosts = some as →
+      (∀ a ∈ as, HostEntry.ip a ∈ hosts) ∧
+      (∀ a ∈ as, newAVP C.hostIP 64 0 (.addr a) ∈ ceaCommon cfg as osid) ∧
+      (∀ a ∈ as, isLoopbackIP a = true → ∀ b, HostEntry.ip b ∈ hosts → isLoopbackIP b = true)) ∧
+    (∀ b, HostEntry.ip b ∈ hosts → ∃ as, getLocalAddresses true hosts = some as ∧ as ≠ []) := by
+  refine ⟨fun as h => ⟨localAddrs_sound hosts as h, (C11_cea_identity cfg as osid).2, ?_⟩,
+          fun b hb => localAddrs_nonempty hosts b hb⟩
+  intro a ha hl
+  exact localAddrs_loopback_last_resort hosts as a h ha hl
+
+/-- non-vacuity: the IPv6 endpoint of finding F21, and a multi-homed mixed one -/
+example : getLocalAddresses true [.ip [0x20,0x01,0x0d,0xb8,0,0,0,0,0,0,0,0,0,0,0,7]] =
+      some [[0x20,0x01,0x0d,0xb8,0,0,0,0,0,0,0,0,0,0,0,7]] ∧
+    getLocalAddresses true [.ip [127,0,0,1], .unparseable, .ip [10,0,0,3]] = some [[10,0,0,3]] ∧
+    getLocalAddresses true [.ip [127,0,0,1], .unparseable] = some [[127,0,0,1]] := by decide
 
 theorem C11_gen : Gen.rcSuccess = 2001 ∧ Gen.rcNoCommonApplication = 5010 ∧ Gen.rcNoCommonSecurity = 5017 ∧
     Gen.rcUnableToComply = 5012 ∧ Gen.relayAppId = 4294967295 ∧ Gen.cmdCapabilitiesExchange = 257 := by decide
